@@ -48,7 +48,7 @@ TOUCH = 1e-9
 # ----------------------------------------------------------------------------------------------
 # alphabets
 # ----------------------------------------------------------------------------------------------
-GRIDS = ['uniform', 'log', 'constR', 'gap', 'unequal']
+GRIDS = ['uniform', 'log', 'constR', 'gap', 'unequal', 'wide']
 
 
 def native(letter, n):
@@ -69,6 +69,11 @@ def native(letter, n):
     elif letter == 'unequal':
         c = np.array([10.0, 13.0, 15.0, 20.0, 23.5, 26.5])[:n]
         w = np.array([2.0, 3.0, 1.0, 6.0, 1.0, 1.0])[:n]
+    elif letter == 'wide':
+        # an oversampled spectrum: every native bin is three and a half times as wide as the spacing of the centres (it
+        # reaches beyond the centres of its neighbours on both sides)
+        c = 10.0 + 2.0 * np.arange(n)
+        w = np.full(n, 7.0)
     elif letter == 'unequal2':
         # same point count and the same first and last centre as 'unequal', other interior points (reuse phase only)
         c = np.array([10.0, 12.5, 16.0, 19.0, 24.0, 26.5])[:n]
@@ -119,6 +124,8 @@ def spectra(letter, n):
         s[k] = 1.0
         rows.append(('spike%d' % k, s))
     rows += [('g1', g1), ('g2', g2), ('lin', A_LIN * g1 + B_LIN * g2)]
+    # eight decades per native point (a Planck tail): every bin is the mean of ITS points, whatever lies to its left
+    rows.append(('decades', 10.0 ** (-8.0 * np.arange(n))))
     names = [a for a, _ in rows]
     return names, np.array([b for _, b in rows])
 
